@@ -30,7 +30,12 @@ MUTS = ["id-other-hex", "id-of-other-event", "id-upper", "id-mixed", "sig-nibble
         "pubkey-nibble", "pubkey-other", "pubkey-upper", "content", "created_at", "kind", "tag-elem", "tag-add",
         "ts-string", "ts-float", "ts-bool", "kind-string", "kind-float", "kind-bool", "content-nonstr", "tags-nonlist",
         "tag-nonstr", "extra-key", "missing-key", "deleg-arity", "deleg-forged", "deleg-transplant", "deleg-conditions",
-        "deleg-second-forged", "deleg-second-transplant", "none"]
+        "deleg-second-forged", "deleg-second-transplant", "none",
+        # type-confused fields with the id RECOMPUTED over exactly what is sent and a fresh signature
+        "resign-ts-bool", "resign-ts-float", "resign-ts-string", "resign-kind-bool", "resign-kind-float",
+        "resign-kind-string", "resign-tag-nonstr", "resign-pubkey-upper",
+        # the relay's own (public) service pubkey named as author
+        "pubkey-service", "pubkey-service-kind"]
 
 
 def flip(h, pos=5):
@@ -122,6 +127,36 @@ def _mutate_one(ev, m, case):
             ev["extra"] = 1
         elif m == "missing-key":
             ev.pop("sig", None)
+        elif m.startswith("resign-"):
+            from aionostr.event import Event
+
+            if m == "resign-ts-bool":
+                ev["created_at"] = True
+            elif m == "resign-ts-float":
+                ev["created_at"] = float(case["event"]["created_at"])
+            elif m == "resign-ts-string":
+                ev["created_at"] = str(case["event"]["created_at"])
+            elif m == "resign-kind-bool":
+                ev["kind"] = True
+            elif m == "resign-kind-float":
+                ev["kind"] = float(case["event"]["kind"])
+            elif m == "resign-kind-string":
+                ev["kind"] = str(case["event"]["kind"])
+            elif m == "resign-tag-nonstr":
+                ev["tags"] = list(ev["tags"]) + [["t", 1, True, None]]
+            elif m == "resign-pubkey-upper":
+                ev["pubkey"] = ev["pubkey"].upper()
+            ev["id"] = Event.compute_id(ev["pubkey"], ev["created_at"], ev["kind"], ev["tags"], ev["content"])
+            ev["sig"] = E.sign_id(k, ev["id"])
+        elif m in ("pubkey-service", "pubkey-service-kind"):
+            from coincurve import PrivateKey
+            from vlib import bootstrap
+
+            ev["pubkey"] = PrivateKey(bytes.fromhex(bootstrap.SERVICE_SK)).public_key_xonly.format().hex()
+            if m == "pubkey-service-kind":
+                ev["kind"] = 31494
+                ev["tags"] = [["d", "auth:" + E.PKS[k]], ["t", "auth"], ["p", E.PKS[k]]]
+                ev["content"] = "s"
         elif m in ("deleg-second-forged", "deleg-second-transplant") and isinstance(ev["tags"], list):
             # a genuine delegation tag FIRST, then a forged / transplanted one naming a victim
             genuine = E.delegation_tag((k + 1) % 3, ev["pubkey"], "kind=%s" % ev["kind"])
@@ -183,7 +218,9 @@ class Authentic(Sub):
         labels.append("authentic" if auth else "inauthentic")
         for m in case["muts"]:
             labels.append("mut:" + m)
-        async with H.Rig(backend) as rig:
+        from vlib import bootstrap
+
+        async with H.Rig(backend, config={"service_privatekey": bootstrap.SERVICE_SK}) as rig:
             w = rig.conn("10.0.0.9")
             await w.send(["REQ", "w", {"since": 1}])
             # prelude: the genuine event is known to the relay first (accepted; maybe ephemeral, superseded,
@@ -220,6 +257,10 @@ class Authentic(Sub):
                 ok, reason = await rig.add(ev)
             after = await rig.dump()
             new = {i: e for i, e in after.items() if i not in before}
+            for f in w.frames(nw):
+                if f[0] == "<INVALID-FRAME>":
+                    viol.append(V("%s-pushed-frame-not-json" % backend, "only authentic events are forwarded (the pushed frame is not even JSON)",
+                                  muts=case["muts"], raw=f[1]))
             pushed = [f[2] for f in w.frames(nw) if f[0] == "EVENT"]
             if pre != "none":
                 # pushes of the genuine prelude event itself are legitimate
